@@ -691,6 +691,11 @@ def make_dataset(rng, T=None, naming=None, nfam=None, P=None, maxleaves=8, int_i
             other = rng.choice([g for g in allg_ if g != g0])
             gl = list(D.species[si][1]); gl[gi] = (g0, [(k, v) for k, v in xr0 if k != 'geneId'] + [('geneId', other)])
             D.species[si] = (D.species[si][0], gl)
+    # every gene of one family carrying the same, single cross-reference (a gene symbol shared by orthologs and paralogs):
+    # different genes that are indistinguishable by their cross-references (r12-C16b: value equality for Gene objects)
+    if D.families and rng.random() < P.get('same_xrefs', 0.1):
+        fam_genes_ = set(genes_of(rng.choice(D.families)[1]))
+        D.species = [(n_, [(g_, [('protId', 'RAD51')] if g_ in fam_genes_ else xr_) for g_, xr_ in gs_]) for n_, gs_ in D.species]
     for p, l, _ in D.families:
         D.groups += encode(T, naming, p, l)
     D.base_groups = list(D.groups)
